@@ -41,8 +41,9 @@ WideTables == QuickTables \cup
                  Tab(<<<<VInt(1), U>>>>) }
 AU == {None, VInt(1), VFlt(1, 1), VInt(2), VStr("ab"), VNaN(1), VNaN(2)}
 YU == {U, V, VInt(1)}
-SimTables == {Tab(r) : r \in UNION {[1..n -> AU \X YU] : n \in 2..4}}
-Tables == IF Scope = "quick" THEN QuickTables ELSE IF Scope = "wide" THEN WideTables ELSE SimTables
+\* (the big universe is spelled out inside the IF: TLC evaluates every zero-arity definition when it starts)
+Tables == IF Scope = "quick" THEN QuickTables ELSE IF Scope = "wide" THEN WideTables
+          ELSE {Tab(r) : r \in UNION {[1..n -> AU \X YU] : n \in 2..4}}
 Keys2 == IF Scope = "quick" THEN {<<"a", "y">>} ELSE {<<"a", "y">>, <<"y", "a">>, <<"y">>, <<"p", "a">>}
 NameU == IF Scope = "quick" THEN {<<"a">>, <<"a", "y">>, <<"y">>} ELSE {<<"a">>, <<"a", "y">>, <<"y">>, <<"y", "a">>, <<"p">>}
 Labels(T) == LET pv == CPivot(T, <<"a">>, "y", "p", "last") IN SubSeq(pv.cols, 2, Len(pv.cols))
@@ -109,9 +110,18 @@ FirstForm == LET ks == {k \in 1..Len(hist) : hist[k].form # ""} IN
 FormOK(cl) == Loose \/ cl.form = "" \/ FirstForm = "" \/ (IF cl.form = "name" THEN "names" ELSE cl.form) = FirstForm
                     \/ (cl.op \in {"pivot", "unpivot"} /\ cl.form = "list" /\ Len(store[cl.key].val) > 1)
 
+\* Tight histories are CHAINS: a call that takes names takes them from the object the latest such step used (the point is
+\* the object that is used again); a sort / forward call that follows the making or the editing of a table is made on that table
+LastKey == LET ks == {k \in 1..Len(hist) : hist[k].key # 0} IN IF ks = {} THEN 0 ELSE hist[CHOOSE k \in ks : \A j \in ks : j <= k].key
+KeyLink(cl) == Loose \/ cl.key = 0 \/ LastKey = 0 \/ cl.key = LastKey
+OnLink(cl) == IF Loose \/ hist = <<>> \/ ~(cl.op = "sort" \/ Forward(cl.op)) THEN TRUE
+              ELSE LET pr == hist[Len(hist)] IN
+                   IF pr.res # 0 THEN (store[pr.res].kind = "table" => cl.on = pr.res)
+                   ELSE IF pr.op = "edit" THEN (store[pr.on].kind = "table" => cl.on = pr.on) ELSE TRUE
+
 Do(cl) == /\ Len(hist) < Len(plan)
           /\ plan[Len(hist) + 1] \in {ClassOf(cl.op), "X"}
-          /\ FormOK(cl)
+          /\ FormOK(cl) /\ KeyLink(cl) /\ OnLink(cl)
           /\ LET r == MStep(Mech, store, aux, cl) IN store' = r.store /\ aux' = r.aux
           /\ hist' = Append(hist, cl)
           /\ last' = [pre |-> store, call |-> cl, pv |-> IF cl.on = 0 THEN NoProv ELSE aux[cl.on].pv]
